@@ -74,8 +74,10 @@ theorem stringLoop_bounds (inp : Input) : ∀ fuel pos esc, pos ≤ inp.size →
             · have := ih (pos + 1) false (by omega); omega
             · simp; omega
           · split
-            · have := ih (pos + 1) (!esc) (by omega); omega
-            · have := ih (pos + 1) false (by omega); omega
+            · simp; omega
+            · split
+              · have := ih (pos + 1) (!esc) (by omega); omega
+              · have := ih (pos + 1) false (by omega); omega
     · simp; omega
 
 /-- invariant of the block-string counters: everything counted lies between the content start and
